@@ -9,7 +9,7 @@
    spec_hops is the eager, purely algebraic reading of a history. *)
 From Coq Require Import List ZArith Bool Arith Permutation.
 From MV Require Import Csg.CsgDefs Csg.CsgAlgebra Csg.CsgHeap Csg.CsgVisit Csg.CsgModel
-     Csg.CsgVoxelDefs Csg.CsgVoxel Csg.CsgThms.
+     Csg.CsgVoxelDefs Csg.CsgVoxel Csg.CsgThms Csg.CsgStack Csg.CsgFinal.
 Import ListNotations.
 
 (* Run ANY history of client operations (constructors, BatchBoolean, + - ^,
@@ -188,3 +188,30 @@ Theorem laws_have_a_model : CsgLaws VoxOps /\ ovl_sound VoxOps vovl.
 Proof. exact (conj VoxLaws vovl_sound). Qed.
 Print Assumptions laws_have_a_model.
 
+(* The explicit stack, frame for frame (CsgDefs.step / run / to_leaf_stack): whatever
+   the big-step evaluator returns for CsgOpNode::ToLeafNode - heap and cache node -
+   the stack machine returns too, after some number of loop iterations.  No law
+   of the carrier and no invariant is needed: it is a fact about the two programs. *)
+Theorem stack_refines_bigstep :
+  forall (A : CsgOps) (uniq : nat -> nat -> bool) (ovl : (sol A * tr A) -> (sol A * tr A) -> bool)
+         (sz : (sol A * tr A) -> Z) (kmax : nat) (fuel : nat) (h : heap A) (id : nat) (r : heap A * nat),
+    to_leaf_rec A uniq ovl sz kmax fuel h id = Some r ->
+    exists fuel', to_leaf_stack A uniq ovl sz kmax fuel' h id = Some r.
+Proof. exact stack_refines_bigstep_thm. Qed.
+Print Assumptions stack_refines_bigstep.
+
+(* hence force_denotes holds for the frame-for-frame machine: any history, any
+   oracle answers, then force any live handle *)
+Theorem stack_force_denotes :
+  forall (A : CsgOps), CsgLaws A ->
+  forall (O : oracles A) (l : list (hop A)) (sp : list (option (sol A))) (a : nat) (v : sol A),
+    oracles_ok A O -> spec_hops A [] l = Some sp -> sp_handle A sp a = Some v ->
+    exists fuel s' lid lf,
+      run A O fuel true (l ++ [HForce A a]) = Some s' /\
+      wf A (st_heap A s') /\
+      handle A s' a = Some lid /\ get_node A (st_heap A s') lid = Some (NLeaf A lf) /\
+      eqS A (lden A lf) v /\
+      (forall b w, sp_handle A sp b = Some w ->
+         exists i', handle A s' b = Some i' /\ eqS A (dn A (st_heap A s') i') w).
+Proof. exact stack_force_denotes_thm. Qed.
+Print Assumptions stack_force_denotes.
